@@ -169,6 +169,23 @@ def tree_str(tree) -> str:
   return v + ('[' + ' '.join(tree_str(k) for k in kids) + ']' if kids else '') or '()'
 
 
+def _past_the_end(algo, cap: int = 6) -> list:
+  """Polls an exhausted generator again: [outcomes of 3 more propose() calls (NO_NEXT = StopIteration, else the
+  DNA proposed), what iterating it once more yields, num_proposals afterwards]."""
+  outcomes = []
+  for _ in range(3):
+    try:
+      outcomes.append(project(algo.propose()))
+    except StopIteration:
+      outcomes.append(NO_NEXT)
+  again = []
+  for d in algo:
+    again.append(project(d))
+    if len(again) >= cap:
+      break
+  return [outcomes, again, algo.num_proposals]
+
+
 def _exc(e: BaseException) -> str:
   return type(e).__name__
 
@@ -180,7 +197,8 @@ def observe_c11(entry: dict, seed: int, opts: dict) -> dict:
   ref_size = entry['size']          # used only as a loop bound (a runaway iterator must stop somewhere)
   errs: List[str] = []
   o: Dict[str, Any] = {'spec': js, 'iter': [], 'lt': [], 'endnone': True, 'sweep': [], 'hassweep': False,
-                       'nexts': [], 'resume': [0, []], 'probes': [], 'random': [], 'errs': errs, 'size': -2, 'recov': []}
+                       'nexts': [], 'resume': [0, []], 'probes': [], 'random': [], 'errs': errs, 'size': -2, 'recov': [],
+                       'sweep_end': [[], [], -1]}
   try:
     spec = build_space(js)
   except Exception as e:  # pylint: disable=broad-except
@@ -226,6 +244,8 @@ def observe_c11(entry: dict, seed: int, opts: dict) -> dict:
           if len(sw) >= cap:
             break
         o['sweep'] = sw
+        if len(sw) < cap:
+          o['sweep_end'] = _past_the_end(algo)
       except Exception as e:  # pylint: disable=broad-except
         errs.append('sweeping:' + _exc(e))
         sw_dnas = []
@@ -246,7 +266,7 @@ def observe_c11(entry: dict, seed: int, opts: dict) -> dict:
               rest.append(project(d))
               if len(rest) >= cap:
                 break
-            o['recov'].append([r, pending, nprop, rest])
+            o['recov'].append([r, pending, nprop, rest, _past_the_end(algo2) if len(rest) < cap else [[], [], n]])
           except Exception as e:  # pylint: disable=broad-except
             errs.append('sweeping.recover:' + _exc(e))
     if 2 <= len(dnas) <= opts['resume_max']:
